@@ -222,7 +222,10 @@ def extract(repo):
 
     # ---- save_index, write_blob_atomic (both copies)
     body = fn_body(cont, "save_index")
-    g["save_index"] = flat(tokens(body, [point_pat(), (r"fs::write\(", 108), (r"fs::rename\(", 109)])) if body is not None else []
+    g["save_index"] = flat(tokens(body, [point_pat(), (r"fs::write\(", 108), (r"fs::rename\(", 109),
+                                         # 114 = IIdxRemove: not in rip's save_index; with it the list is the skeleton of the
+                                         # REFUTED variant (Model/Crash.v unlink_first, Props c05_unlink_then_rename_refuted)
+                                         (r"fs::remove_file\(", 114)])) if body is not None else []
     g["leaf_calls_ok"] = True
     if body is not None and leaf_unknown_calls(body):
         g["leaf_calls_ok"] = False
